@@ -1,4 +1,4 @@
-import QuillModel.Time.ScanProofs
+import QuillModel.Time.SplitProofs
 /-!
 # `%r %R %T` are rewritten token by token, and the rewritten pattern renders the same
 
@@ -196,7 +196,7 @@ theorem rewrite_toks (toks : List Tok) (h : supportedToks toks = true) :
   have e3 : "%H:%M:%S".toList = charsOf newT := by decide
   have h1 := rwToks_supported 'r' newr nice_newr toks h
   have h2 := rwToks_supported 'R' newR nice_newR _ h1
-  simp only [rewrite, rw3, e1, e2, e3]
+  simp only [rewrite, replaceAllCpp_eq, rw3, e1, e2, e3]
   rw [replaceAll_toks 'r' (Or.inl rfl) newr toks h, replaceAll_toks 'R' (Or.inr (Or.inl rfl)) newR _ h1,
     replaceAll_toks 'T' (Or.inr (Or.inr rfl)) newT _ h2]
 
